@@ -236,6 +236,11 @@ def main(argv=None):
                 print(f"[{a.pid}] replay {a.replay}: property holds on this case")
             return 0
         import shutil
+        global REPLAY_DIR
+        if os.environ.get("VERIF_NO_EVIDENCE"):
+            # scratch runs (tools/mutant.sh, intake, seed regression) may run concurrently with each other and with a
+            # real run of the same property: they keep their replay files in their own run directory
+            REPLAY_DIR = os.path.join(os.environ["VERIF_RUNDIR"], "replays")
         shutil.rmtree(os.path.join(REPLAY_DIR, a.pid), ignore_errors=True)
         run = Run(a.pid, a.tier, drv)
         rule = drv.run(run)
